@@ -55,7 +55,7 @@ class Sink(io.BytesIO):
 def run_row(mode, row, cuts=None, close_unacked=False, stall='raise'):
     op, script, fail_at = row['op'], row['script'], row['failAt']
     dev = simdev.SimDevice(seed=len(script))
-    reply = render('pull' if op == 'pullcb' else op, script)
+    reply = render('pull' if op in ('pullcb', 'push') else op, script)
     state = {'n': 0}
 
     def service_for(dest, d):
@@ -77,6 +77,8 @@ def run_row(mode, row, cuts=None, close_unacked=False, stall='raise'):
         o = sess.call('stat', '/f', read_timeout_s=1.0)
     elif op == 'list':
         o = sess.call('list', '/f', read_timeout_s=1.0)
+    elif op == 'push':
+        o = sess.call('push', io.BytesIO(b'abc' * 10), '/new', mtime=5, read_timeout_s=1.0)
     else:
         cb = None
         if op == 'pullcb':
@@ -101,6 +103,8 @@ def run_row(mode, row, cuts=None, close_unacked=False, stall='raise'):
         items = [i for i in range(1, len(script) + 1) if o.kind == 'ret' and tuple(o.value) == (0o100644 + i, 100 + i, 1000 + i)]
         if o.kind == 'ret' and not items:
             items = [-1]
+    elif op == 'push':
+        items = []
     elif op == 'list':
         items = []
         if o.kind == 'ret':
@@ -125,13 +129,13 @@ def run_row(mode, row, cuts=None, close_unacked=False, stall='raise'):
 def compare(row, obs):
     """Clause name of the first disagreement, or None."""
     if obs['outcome'] != row['outcome']:
-        if row['outcome'] in ('AdbCommandFailureException', 'InvalidResponseError') or obs['outcome'] == 'ret':
-            return 'C10.NeverSucceeds' if obs['outcome'] == 'ret' else ('C10.FailSurfaces' if row['outcome'] == 'AdbCommandFailureException' else 'C10.InvalidStatus')
+        if row['outcome'] in ('AdbCommandFailureException', 'PushFailedError', 'InvalidResponseError') or obs['outcome'] == 'ret':
+            return 'C10.NeverSucceeds' if obs['outcome'] == 'ret' else ('C10.FailSurfaces' if row['outcome'] in ('AdbCommandFailureException', 'PushFailedError') else 'C10.InvalidStatus')
         return 'C10.Outcome'
     want_items = row['items']
     if row['outcome'] == 'ret' or row['op'] in ('pull', 'pullcb'):
         if obs['items'] != want_items:
-            return {'stat': 'C09.StatExact', 'list': 'C09.ListExact'}.get(row['op'], 'C08.PullExact')
+            return {'stat': 'C09.StatExact', 'list': 'C09.ListExact', 'push': 'C07.ExactBytes'}.get(row['op'], 'C08.PullExact')
     if obs['nclse'] != row['nclse']:
         return 'C04.CloseOnce'
     if row['op'] == 'pullcb' and obs['cb'] != [len(PAY[i]) for i in obs['items']]:
